@@ -9,11 +9,16 @@ Definition is_hex_digit (c : N) : Prop :=
 (** "a 32-digit hexadecimal string" *)
 Definition MachineId (s : str) : Prop := len s = 32 /\ Forall is_hex_digit s.
 
-(** "a call to Ping or GetMachineId on org.freedesktop.DBus.Peer" *)
-Definition IsPing (m : msg) : Prop :=
-  dh_interface (m_dh m) = Some peer_iface /\ dh_member (m_dh m) = Some ping_name.
-Definition IsGetMachineId (m : msg) : Prop :=
-  dh_interface (m_dh m) = Some peer_iface /\ dh_member (m_dh m) = Some get_machine_id_name.
+(** the header names Ping resp. GetMachineId of org.freedesktop.DBus.Peer *)
+Definition PingHeader (h : dynheader) : Prop :=
+  dh_interface h = Some peer_iface /\ dh_member h = Some ping_name.
+Definition GetMachineIdHeader (h : dynheader) : Prop :=
+  dh_interface h = Some peer_iface /\ dh_member h = Some get_machine_id_name.
+Definition PeerHeader (h : dynheader) : Prop := PingHeader h \/ GetMachineIdHeader h.
+
+(** "a call to Ping or GetMachineId on org.freedesktop.DBus.Peer": a message of type method call *)
+Definition IsPing (m : msg) : Prop := m_typ m = MCall /\ PingHeader (m_dh m).
+Definition IsGetMachineId (m : msg) : Prop := m_typ m = MCall /\ GetMachineIdHeader (m_dh m).
 Definition IsPeerCall (m : msg) : Prop := IsPing m \/ IsGetMachineId m.
 
 (* the value a string of hex digits denotes (most significant digit first) *)
@@ -263,24 +268,30 @@ Section WithUtf8.
   Lemma peer_names_differ : ping_name <> get_machine_id_name.
   Proof. discriminate. Qed.
 
-  Lemma filter_peer_spec m : filter_peer (m_dh m) = true <-> IsPeerCall m.
+  Lemma filter_peer_spec h : filter_peer h = true <-> PeerHeader h.
   Proof.
-    unfold filter_peer, IsPeerCall, IsPing, IsGetMachineId.
-    destruct (dh_interface (m_dh m)) as [i|]; [|split; [discriminate|intros [[H _]|[H _]]; discriminate]].
+    unfold filter_peer, PeerHeader, PingHeader, GetMachineIdHeader.
+    destruct (dh_interface h) as [i|]; [|split; [discriminate|intros [[H _]|[H _]]; discriminate]].
     destruct (str_eqb i peer_iface) eqn:Ei.
     - apply str_eqb_spec in Ei. subst i.
-      destruct (dh_member (m_dh m)) as [mem|]; [|split; [discriminate|intros [[_ H]|[_ H]]; discriminate]].
+      destruct (dh_member h) as [mem|]; [|split; [discriminate|intros [[_ H]|[_ H]]; discriminate]].
       rewrite orb_true_iff, !str_eqb_spec. split.
       + intros [-> | ->]; auto.
       + intros [[_ H]|[_ H]]; inversion H; auto.
     - split; [discriminate|]. intros [[H _]|[H _]]; inversion H; subst; rewrite str_eqb_refl in Ei; discriminate.
   Qed.
 
-  (** every message that is not a Ping/GetMachineId call on the Peer interface is reported as not
-      handled; nothing is written and the file system is not touched *)
+  Lemma is_peer_call_iff m : IsPeerCall m <-> m_typ m = MCall /\ PeerHeader (m_dh m).
+  Proof. unfold IsPeerCall, IsPing, IsGetMachineId, PeerHeader. tauto. Qed.
+
+  (** every message that is not a Ping/GetMachineId method call on the Peer interface - any other
+      type, interface or member, or absent fields - is reported as not handled; nothing is written
+      and the file system is not touched *)
   Theorem handle_peer_other e f m : ~ IsPeerCall m -> handle_peer_message utf8_valid e f m = Ok (false, [], f).
   Proof.
-    intros Hn. unfold handle_peer_message. unfold IsPeerCall, IsPing, IsGetMachineId in Hn.
+    intros Hn. unfold handle_peer_message.
+    destruct (m_typ m) eqn:Ht; cbn [is_call negb]; try reflexivity.
+    unfold IsPeerCall, IsPing, IsGetMachineId, PingHeader, GetMachineIdHeader in Hn. rewrite Ht in Hn.
     destruct (dh_interface (m_dh m)) as [i|]; [|reflexivity].
     destruct (str_eqb i peer_iface) eqn:Ei; [|reflexivity]. apply str_eqb_spec in Ei. subst i.
     destruct (dh_member (m_dh m)) as [mem|]; [|reflexivity].
@@ -293,7 +304,7 @@ Section WithUtf8.
   Theorem handle_peer_ping e f m : IsPing m ->
     handle_peer_message utf8_valid e f m = Ok (true, [make_response (m_dh m)], f).
   Proof.
-    intros [Hi Hm]. unfold handle_peer_message. rewrite Hi, Hm, !str_eqb_refl. reflexivity.
+    intros [Ht [Hi Hm]]. unfold handle_peer_message. rewrite Ht, Hi, Hm, !str_eqb_refl. reflexivity.
   Qed.
 
   (** GetMachineId: handled, exactly one message written: the reply to the call carrying the id,
@@ -310,7 +321,8 @@ Section WithUtf8.
          | None => id = new_id e /\ MachineId id /\ f1 = fs_write machine_id_path id f
          end.
   Proof.
-    intros [Hi Hm] Hd Hpre. unfold handle_peer_message. rewrite Hi, Hm, str_eqb_refl.
+    intros [Ht [Hi Hm]] Hd Hpre. unfold handle_peer_message. rewrite Ht, Hi, Hm, str_eqb_refl.
+    cbn [is_call negb].
     rewrite (str_eqb_neq get_machine_id_name ping_name) by discriminate. rewrite str_eqb_refl.
     destruct (f machine_id_path) as [c|] eqn:Hf.
     - destruct Hpre as [Hu Hz]. rewrite (get_machine_id_stored e f c Hf Hu). rewrite Hz.
@@ -318,6 +330,40 @@ Section WithUtf8.
     - destruct (get_machine_id_fresh e f Hd Hpre Hf) as (id & Hg & Hid & HM). rewrite Hg.
       rewrite hex_no_nul by apply HM. exists id, (fs_write machine_id_path id f).
       split; [reflexivity|]. split; [apply fs_write_same|]. auto.
+  Qed.
+
+  (** the composed statement about the id: once the stored file holds what create_and_store wrote
+      for SOME draw and clock (i.e. nobody else wrote /tmp/dbus_machine_uuid), every call - whatever
+      is drawn or read from the clock now, whether or not writing would succeed - returns exactly
+      that string, it is 32 hexadecimal digits, and the file system is left as it is *)
+  Theorem stored_id_always_32hex e0 f :
+    bytes_ok (e_rand e0) ->
+    f machine_id_path = Some (new_id e0) ->            (* environment: only create_and_store writes the file *)
+    forall e, get_machine_id utf8_valid e f = Ok (new_id e0, f) /\ MachineId (new_id e0).
+  Proof.
+    intros Hb Hf e. pose proof (new_id_machine_id e0 Hb) as Hid. split; [|exact Hid].
+    apply get_machine_id_stored; [exact Hf|]. apply ascii_valid, hex_ascii, Hid.
+  Qed.
+  (** ... and from ANY state the environment assumption allows (no id file yet, or the file holds
+      what create_and_store wrote for some earlier draw and clock): the call returns a 32-digit
+      hexadecimal string, and every later call - any later draw, clock value, write outcome -
+      returns that same string *)
+  Theorem id_always_32hex e f : DrawOK e ->
+    match f machine_id_path with
+    | None => e_write_ok e = true
+    | Some c => exists e0, bytes_ok (e_rand e0) /\ c = new_id e0     (* nobody else writes the file *)
+    end ->
+    exists id f1, get_machine_id utf8_valid e f = Ok (id, f1) /\ MachineId id
+                  /\ forall e2, get_machine_id utf8_valid e2 f1 = Ok (id, f1).
+  Proof.
+    intros Hd Hpre. destruct (f machine_id_path) as [c|] eqn:Hf.
+    - destruct Hpre as (e0 & Hb & ->). exists (new_id e0), f.
+      destruct (stored_id_always_32hex e0 f Hb Hf e) as [H1 H2]. split; [exact H1|]. split; [exact H2|].
+      intros e2. apply (stored_id_always_32hex e0 f Hb Hf e2).
+    - destruct (get_machine_id_fresh e f Hd Hpre Hf) as (id & Hg & -> & HM).
+      exists (new_id e), (fs_write machine_id_path (new_id e) f). split; [exact Hg|]. split; [exact HM|].
+      destruct Hd as [_ Hb]. intros e2.
+      apply (stored_id_always_32hex e (fs_write machine_id_path (new_id e) f) Hb (fs_write_same _ _ _) e2).
   Qed.
 End WithUtf8.
 
